@@ -1,4 +1,4 @@
-import ApolloModel.Proofs.ParserTree17
+import ApolloModel.Proofs.ParserTree24
 import ApolloModel.Proofs.AstDocument3
 /-
 C08 growth (pipeline), stage (v) type-system definitions, part 1: descriptions, default values, the type of a
@@ -130,34 +130,6 @@ theorem tr_peekIf {α : Type} {E : PState → Prop} {H : List Tok → Prop} (c :
 /-- one type reference -/
 def TyR (cs : List Tok) (e : List Elem) : Prop := ∃ t e0, TokIs cs (Ast.tTy t) ∧ e = [e0] ∧ TyTree t e0
 
-/-- **ty.rs::ty** in the tree calculus -/
-theorem tr_ty (n : Nat) {E : PState → Prop} {H : List Tok → Prop} : Tr E H (ty n) (fun _ => TyR) := by
-  refine Tr.anyE ⟨good_ty n, ?_⟩
-  intro s a s' w hi he hlq _ hr hnd
-  unfold ty at hr
-  obtain ⟨r, sT, hT, h3⟩ := bind_dec (tyParse n) _ s s' a hr
-  have aT := good_tyParse n s r sT w hT
-  have hok : r = .ok ∧ sT = s' := by
-    cases r with
-    | ok => simp only [] at h3; rw [run_pure] at h3; injection h3 with _ h3; exact ⟨rfl, h3⟩
-    | early =>
-      exfalso
-      simp only [] at h3; rw [run_pure] at h3; injection h3 with _ h3; subst h3
-      rcases tyParse_sound n s sT _ w he hT hnd with ⟨tk, hx⟩ | ⟨hx, _⟩ <;> cases hx
-    | errTok tk =>
-      exfalso
-      simp only [] at h3
-      exact hnd (errAtToken_adv tk sT s' aT.w h3).2
-    | errNone =>
-      exfalso
-      simp only [] at h3
-      have hndT : ¬ Doomed sT := fun d => hnd ((good_err sT () s' aT.w h3).doom d)
-      rcases tyParse_sound n s sT _ w he hT hndT with ⟨tk, hx⟩ | ⟨hx, _⟩ <;> cases hx
-  obtain ⟨rfl, rfl⟩ := hok
-  rcases tyParse_tr n s sT _ ⟨w, hi, he, hlq⟩ hT hnd with ⟨tk, hx⟩ | ⟨_, _, hres⟩
-  · cases hx
-  · exact hres
-
 /-- `description`: a String token under `DESCRIPTION[STRING_VALUE[…]]` -/
 theorem tr_description {E : PState → Prop} (hE : Early E) :
     Tr E (KindP (· == .stringValue)) description
@@ -193,7 +165,7 @@ theorem tr_optDesc {α : Type} {E : PState → Prop} (hE : Early E) {H : List To
   · exact ⟨none, [], c2, [], e2, rfl, rfl, TokIs.nil, Or.inl ⟨rfl, rfl⟩, h2⟩
 
 /-- `default_value`: `= Value` (constant) under one DEFAULT_VALUE node -/
-theorem tr_defaultValue (n : Nat) :
+theorem tr_defaultValueD (n : Nat) :
     Tr AtEof (KindP (· == .eq)) (defaultValue n)
       (fun _ cs e => ∃ (v : Ast.Value), TokIs cs (Ast.tDefault (some v)) ∧ valueOk true v = true ∧ DefaultPre (some v) e) := by
   unfold defaultValue
